@@ -25,6 +25,7 @@ DECIDES = (
     "patches and faces (C06.VERTEX-OWNERSHIP); projection labels must not derive from object identity "
     "(C06.GEOMETRY-LABEL); vector_format prints at least -log10(TOL) decimals (C06.PRECISION)."
     ' clear()/backport() empty what assemble() fills and nothing the user declared (C06.USER-STATE-SURVIVES = C12.CLEAR-COMPLETE); simpleGrading only when all wires agree (C06.GRADING-FORM = C04.SIMPLE-ONLY-IF-EQUAL).'
+    ' A re-declared geometry takes the new definition (C06.GEOMETRY-REDECLARED); vertex coincidence tests are absolute (C06.VERTEX-TOLERANCE); writing twice writes the same counts (C06.GRADE-IDEMPOTENT).'
 )
 NOT_DECIDED = "parse-and-compare equivalence of a complete written file with the model for arbitrary user scripts."
 ASSUMPTIONS = ["a section is 'written' by output.write(<expr reading self.<list>.description>) inside the with-open block of Mesh.write"]
